@@ -1295,18 +1295,44 @@ def first_diff(a, b):
     return (a[:200], b[:200])
 
 
+QUIRK = 'C04:fs:record_iternext-stops-at-uncreated'
+
+
+def is_iternext_quirk(x, y):
+    """real `[a;b]err:KeyError` vs history `[a;b;c]end`: the walk stopped at an object that has no
+    current record (deleted / creation undone) instead of skipping it"""
+    if not (x.startswith('recordIter=[') and y.startswith('recordIter=[') and
+            x.endswith(']err:KeyError') and y.endswith(']end')):
+        return False
+    rx, ry = x[len('recordIter=['):-len(']err:KeyError')], y[len('recordIter=['):-len(']end')]
+    return ry == rx or ry.startswith(rx + ';') or rx == ''
+
+
 def oracle_diff(run):
-    """first line where the real code contradicts the oracle: (index, real segment, oracle segment)"""
+    """first line where the real code contradicts the oracle: (index, real segment, oracle segment).
+    The record_iternext finding is kept apart (run.quirk) so that it hides nothing else; it is
+    returned only when there is no other difference."""
+    run.quirk = None
     for i, (r, o) in enumerate(zip(run.real, run.orc)):
-        if o is not None and r != o:
-            x, y = first_diff(r, o)
-            return i, x, y
-    return None
+        if o is None or r == o:
+            continue
+        sa, sb = r.split(' | '), o.split(' | ')
+        if len(sa) != len(sb):
+            return i, r[:200], o[:200]
+        for x, y in zip(sa, sb):
+            if x != y:
+                if is_iternext_quirk(x, y):
+                    run.quirk = run.quirk or (i, x, y)
+                    continue
+                return i, x, y
+    return run.quirk
 
 
 def signature(case, run, diff):
     i, x, y = diff
     what = x.split('=')[0].split('(')[0]
+    if is_iternext_quirk(x, y):
+        return QUIRK
     if y.startswith('ok tid=<above'):
         return 'C04:%s:tid-not-increasing' % case['kind']
     if x.startswith(('ok', 'err:')) and '=' not in x.split(' ')[0]:
@@ -1333,9 +1359,12 @@ def shrink(case, tmp, sig):
             c['base_n'] = min(c.get('base_n', 0), max(len(txns) - 1, 0))
         return c
     hang = sig.endswith(':hang')
-    txns = ddmin(case['txns'], lambda ts: fails_case(with_txns(ts)), max_tests=25 if hang else 150)
+    txns = ddmin(case['txns'], lambda ts: fails_case(with_txns(ts)),
+                 max_tests=25 if hang else 30 if sig == QUIRK else 150)
     if not fails_case(with_txns(txns)):
         txns = case['txns']
+    if sig == QUIRK:
+        return with_txns(txns)        # a listed finding: a small case is enough, no op-level pass
     if hang:
         small = with_txns(txns)
         return small if judge(small, tmp, CASE_TIMEOUT, confirm=True)[1] == sig else case
@@ -1620,7 +1649,7 @@ def work(args):
         run.case = case
         if d is not None:
             res['counts']['violation:' + sig] = res['counts'].get('violation:' + sig, 0) + 1
-            if sum(1 for v in res['violations'] if v[0] == sig) < 2:
+            if sum(1 for v in res['violations'] if v[0] == sig) < (1 if sig == QUIRK else 2):
                 if case['kind'] == 'pair':
                     small, r2, d2 = case, run, d          # needs both storages: reported as it is
                 else:
@@ -1632,7 +1661,7 @@ def work(args):
                                           'transactions says %s (after %r)' % (
                                               case['kind'], d2[1][:300], d2[2][:300],
                                               (r2.lines[d2[0]] or 'queries')[:80]), small))
-            run.judged = False
+            run.judged = sig == QUIRK       # the model follows the code there: still compared
         else:
             run.judged = True
     # model: one driver process for all FileStorage cases of this worker
